@@ -41,7 +41,7 @@ def dims(topo):
         d.append(("text%d" % i, [None, 273.15, 285.0]))
         d.append(("do%d" % i, [None, 30.0]))
         d.append(("rev%d" % i, [False, True]))
-    d.append(("mode", ["sequential", "bidirectional"]))
+    d.append(("mode", ["sequential", "bidirectional", "heat"]))
     d.append(("numba", [False, True]))
     d.append(("ambient", [293.15, 283.0]))
     return d
@@ -100,7 +100,22 @@ def run_case(case):
     kw = dict(spec.TIGHT)
     kw.update(opts)
     try:
-        pp.pipeflow(net, **kw)
+        if kw.get("mode") == "heat":
+            # thermal-only calculation started from a stored hydraulic solution
+            from pandapipes.idx_node import PINIT
+            from pandapipes.idx_branch import MDOTINIT
+            kh = dict(kw, mode="hydraulics")
+            pp.pipeflow(net, **kh)
+            u = np.concatenate((net._pit["node"][:, PINIT], net._pit["branch"][:, MDOTINIT]))
+            hyd = {t: net[t].copy() for t in net.keys() if t.startswith("res_") and hasattr(net[t], "columns")}
+            pp.pipeflow(net, sol_vec=u, **kw)
+            # the thermal-only run reports temperatures; flows come from the stored hydraulic run
+            for t, df in hyd.items():
+                for c in df.columns:
+                    if not c.startswith("t_") and c in net[t].columns and net[t][c].isna().all():
+                        net[t][c] = df[c]
+        else:
+            pp.pipeflow(net, **kw)
     except Exception as e:
         return {"status": "raised:" + type(e).__name__, "violations": []}
     vs, info = thermal.check_thermal(net, kw.get("ambient_temperature", 293.15), heat_sources=heat_sources)
